@@ -78,6 +78,18 @@ class Opaque:
     def __repr__(self):
         return f"<opaque {self.tag} {self.label}>"
 
+    # two mentions of the same class / module member (`darsia.Voxel` here and there) are the same value
+    def __eq__(self, other):
+        if isinstance(other, Opaque) and self.tag == "callable" and other.tag == "callable":
+            return self.label == other.label
+        return self is other
+
+    def __ne__(self, other):
+        return not self.__eq__(other)
+
+    def __hash__(self):
+        return hash((self.tag, self.label)) if self.tag == "callable" else id(self)
+
 
 def is_num(v):
     return isinstance(v, (int, Fraction, Decimal)) and not isinstance(v, bool)
@@ -447,6 +459,12 @@ class Folder:
         if isinstance(a, (Opaque, Sym, Obj)) or isinstance(b, (Opaque, Sym, Obj)):
             if isinstance(op, (ast.Is, ast.IsNot)) and (a is None or b is None):
                 return isinstance(op, ast.IsNot)
+            if isinstance(a, Opaque) and isinstance(b, Opaque) and a.tag == "callable" and b.tag == "callable" and isinstance(op, (ast.Eq, ast.NotEq, ast.Is, ast.IsNot)):
+                # classes / module members named by their dotted path
+                return (a == b) == isinstance(op, (ast.Eq, ast.Is))
+            if isinstance(op, (ast.In, ast.NotIn)) and isinstance(a, Opaque) and a.tag == "callable" and isinstance(b, (dict, list, tuple, frozenset)) \
+                    and all(isinstance(x, Opaque) and x.tag == "callable" for x in b):
+                return (a in b) == isinstance(op, ast.In)
             raise Refuse("comparison with opaque value")
         if isinstance(op, ast.Eq):
             if isinstance(a, Arr) or isinstance(b, Arr):
@@ -537,6 +555,8 @@ class Folder:
                 return v[i]
             except KeyError:
                 raise Raised("KeyError")
+        if isinstance(v, Obj) and callable(v.fields.get("__getitem__")) and not isinstance(v.fields.get("__getitem__"), (Opaque, Sym)):
+            return v.fields["__getitem__"]([i], {})
         if self.symbolic and isinstance(v, Obj):
             return Sym(f"{v.label}[{self._sym_index(n.slice, env)}]")
         raise Refuse("subscript of unknown")
@@ -551,6 +571,10 @@ class Folder:
             if n.attr in v.fields:
                 return v.fields[n.attr]
             raise Raised("AttributeError", n)
+        if self.symbolic and isinstance(v, Sym):
+            if v.fn.startswith("namedtuple(") and n.attr in v.kw:
+                return v.kw[n.attr]  # field of a record built in this very fold
+            return Sym(f"{v!r}.{n.attr}")
         if self.symbolic and isinstance(v, Opaque) and v.tag == "callable":
             # member of an imported module / class of the repository: an opaque constant named by its dotted path
             return Opaque("callable", f"{v.label}.{n.attr}")
@@ -577,6 +601,13 @@ class Folder:
         if isinstance(recv, list) and f.attr == "append":
             recv.append(args[0])
             return None
+        if isinstance(recv, dict) and f.attr == "update" and len(args) <= 1 and (not args or isinstance(args[0], dict)):
+            if args:
+                recv.update(args[0])
+            recv.update(self._kwargs(n, env))
+            return None
+        if isinstance(recv, dict) and f.attr == "copy" and not args:
+            return dict(recv)
         if isinstance(recv, dict) and f.attr == "get":
             return recv.get(args[0], args[1] if len(args) > 1 else None)
         if isinstance(recv, dict) and f.attr == "pop" and len(args) == 2:
@@ -632,6 +663,10 @@ class Folder:
             args = [self.ev(a, env) for a in n.args]
             kw = self._kwargs(n, env)
             return self.call(cl.fnode, args, kw, base_env=cl.env)
+        if isinstance(f, ast.Name) and f.id == "type" and "type" not in env and len(n.args) == 1 and not n.keywords:
+            a0 = self.ev(n.args[0], env)
+            if isinstance(a0, Obj) and "__type__" in a0.fields:
+                return a0.fields["__type__"]
         name = None
         if isinstance(f, ast.Name):
             name = f.id
@@ -669,6 +704,22 @@ class Folder:
                 t = flow.MODEL.resolve_call(n, cf)
             except Exception:
                 t = None
+            if self.symbolic and t is not None and hasattr(t, "node") and isinstance(t.node, ast.FunctionDef) and len(self.func_stack) < 6 \
+                    and [getattr(d, "id", None) for d in t.node.decorator_list] == ["staticmethod"] and isinstance(f, ast.Attribute):
+                # a static helper of the class: folded on its arguments alone
+                try:
+                    args = [self.ev(a, env) for a in n.args]
+                    kw = self._kwargs(n, env)
+                    if all(not isinstance(x, Sym) for x in list(args) + list(kw.values())):
+                        sub = Folder(symbolic=True, max_steps=20000)
+                        sub.overrides = getattr(self, "overrides", None)
+                        sub.fold_all_methods = self.fold_all_methods
+                        sub.func_stack = list(self.func_stack) + [t.node]
+                        r = sub.call(t.node, args, kw)
+                        self.trace.extend(sub.trace)
+                        return r
+                except Refuse:
+                    pass
             if t is not None and hasattr(t, "node") and isinstance(t.node, ast.FunctionDef) and not t.node.decorator_list:
                 if not self.symbolic:
                     args = [self.ev(a, env) for a in n.args]
@@ -698,6 +749,7 @@ class Folder:
                         if isinstance(recv, Obj) and (self.fold_all_methods or not _stores_state(t.node)) and len(self.func_stack) < 6:
                             # a helper of the class that does not write object state (predicate, accessor, extracted piece of a computation)
                             sub = Folder(symbolic=True, max_steps=20000)
+                            sub.overrides = getattr(self, "overrides", None)
                             sub.fold_all_methods = self.fold_all_methods
                             sub.func_stack = list(self.func_stack)
                             r = sub.call(t.node, [recv] + args, kw)
@@ -715,6 +767,12 @@ class Folder:
                     recv = None
                 if isinstance(recv, (Opaque, Obj, Sym)):
                     label = recv.label if not isinstance(recv, Sym) else repr(recv)
+                    fld = recv.fields.get(f.attr) if isinstance(recv, Obj) else None
+                    if isinstance(fld, Opaque) and fld.tag == "callable" and fld.label:
+                        # an attribute holding a class / function: the call is a call of that value
+                        sy = Sym(fld.label, args, kw)
+                        self.trace.append(sy)
+                        return sy
                     sy = Sym(f"{label}.{f.attr}", args, kw)
                     self.trace.append(sy)
                     return sy
@@ -1062,6 +1120,9 @@ class Folder:
                     cur[idx[-1]] = v
                 except (IndexError, TypeError):
                     raise Raised("IndexError", t)
+            elif self.symbolic and isinstance(c, (Sym, Opaque, Arr)):
+                # a store into a symbolic array: recorded, in order
+                self.trace.append(Sym("setitem", [c, i, v]))
             else:
                 raise Refuse("subscript store")
         else:
